@@ -55,9 +55,10 @@ def install_audit(path):
                 if not isinstance(p, (str, bytes)):
                     return
                 writing = (isinstance(mode, str) and any(c in mode for c in "wax+")) or (isinstance(flags, int) and flags & (os.O_WRONLY | os.O_RDWR | os.O_CREAT | os.O_TRUNC | os.O_APPEND))
-                log.write(json.dumps({"e": "open", "p": os.fsdecode(p), "w": bool(writing)}) + "\n")
+                log.write(json.dumps({"e": "open", "p": os.path.abspath(os.fsdecode(p)), "w": bool(writing)}) + "\n")
             elif event in MUTATING:
-                log.write(json.dumps({"e": event, "a": [os.fsdecode(a) if isinstance(a, (str, bytes)) else repr(a)[:80] for a in args[:3]]}) + "\n")
+                log.write(json.dumps({"e": event, "a": [os.path.abspath(os.fsdecode(a)) if isinstance(a, (str, bytes)) else
+                                                         os.path.abspath(os.fspath(a)) if hasattr(a, "__fspath__") else repr(a)[:80] for a in args[:3]]}) + "\n")
         except Exception:   # the monitor must never disturb the program it observes
             pass
     sys.addaudithook(hook)
